@@ -132,7 +132,7 @@ func (e *env) newData(size int) []byte {
 func (e *env) drain() bool {
 	for i := 0; i < 200; i++ {
 		if !run.Settle(20 * time.Second) {
-			e.w.Inconclusive("settle timed out in C04 drain")
+			e.w.Inconclusive("settle timed out in C04 drain: " + run.ActiveGoroutines())
 			return false
 		}
 		d, ok := e.s.M.Clock.NextFire()
